@@ -788,9 +788,21 @@ func familyRead(s *hlib.Suite, r *hlib.Rng, n int, thorough bool) {
 		desc := map[string]interface{}{"family": "readcsv", "doc": q(doc), "delim": delim, "empty_null": emptyNull, "ignore_empty": ignoreEmpty,
 			"rename": rename, "alias": alias, "hint": hint, "headers": headers, "types": types, "enum_vals": enumVals,
 			"chunking": chunkKindName[ck], "term": term, "wellformed": wellformed}
+		argsBefore := fmt.Sprintf("%q %q %q", headers, types, enumVals)
 		if p, v := hlib.Recover(func() { qf = qframe.ReadCSV(&schedReader{chunks: chunks, term: term}, fns...) }); p {
 			s.Fail(id, fmt.Sprintf("ReadCSV panicked: %v", v), desc, "csv-read-panic")
 			continue
+		}
+		_ = argsBefore
+		if term < 2 {
+			// the configuration values are the caller's: reading the same stream again with the very same option
+			// values must give the same frame (the Headers slice may be normalised in place, idempotently)
+			var qf2 qframe.QFrame
+			if p, _ := hlib.Recover(func() { qf2 = qframe.ReadCSV(&schedReader{chunks: chunks, term: term}, fns...) }); !p {
+				if (qf2.Err == nil) != (qf.Err == nil) || (qf.Err == nil && !framesSame(qf, qf2)) {
+					s.Fail(id, "reading the same document twice with the same configuration values gives different results", desc, "")
+				}
+			}
 		}
 		// Coq configuration record
 		tl := make([]string, 0, len(types))
@@ -857,6 +869,15 @@ func rtFloat(r *hlib.Rng) float64 {
 		5e-324, 2.2250738585072014e-308, 2.225073858507201e-308, math.MaxFloat64, -math.MaxFloat64, 1e15, 1e16, 1e17, 3.141592653589793, 1.0 / 3}
 	if r.Chance(1, 3) {
 		return math.Float64frombits(r.U64())
+	}
+	if r.Chance(1, 4) {
+		// ordinary magnitudes with a full 15-17 digit fraction
+		scale := []float64{1, 10, 100, 1000, 1e6}[r.Intn(5)]
+		x := float64(r.U64()>>11) / float64(1<<53) * scale
+		if r.Bool() {
+			x = -x
+		}
+		return x
 	}
 	if r.Chance(1, 6) {
 		return float64(int64(r.U64()>>uint(r.Intn(60)))) / 8
@@ -994,8 +1015,12 @@ func familyRound(s *hlib.Suite, r *hlib.Rng, n int, thorough bool) {
 			written = o
 		}
 		var buf bytes.Buffer
+		writtenBefore := fmt.Sprintf("%q", written)
 		werr := qf.ToCSV(&buf, tofns...)
 		doc := buf.Bytes()
+		if fmt.Sprintf("%q", written) != writtenBefore {
+			s.Fail(s.NextID(), "ToCSV changed the slice passed to csv.Columns", map[string]interface{}{"family": "roundtrip", "columns_before": writtenBefore, "columns_after": fmt.Sprintf("%q", written), "props": []string{"C13"}}, "")
+		}
 		ftab := make([]string, 0, len(floats))
 		fseen := map[uint64]bool{}
 		for _, x := range floats {
@@ -1029,9 +1054,14 @@ func familyRound(s *hlib.Suite, r *hlib.Rng, n int, thorough bool) {
 				rfns = append(rfns, csv.Headers(written))
 			}
 			var back qframe.QFrame
+			evBefore := fmt.Sprintf("%q %q", types, ev)
 			if p, v := hlib.Recover(func() { back = qframe.ReadCSV(bytes.NewReader(doc), rfns...) }); p {
 				s.Fail(id, fmt.Sprintf("ReadCSV panicked on ToCSV output: %v", v), desc, "csv-read-panic")
 				continue
+			}
+			_ = evBefore
+			if back2 := qframe.ReadCSV(bytes.NewReader(doc), rfns...); (back2.Err == nil) != (back.Err == nil) || (back.Err == nil && !framesSame(back, back2)) {
+				s.Fail(id, "reading the same document twice with the same configuration values gives different frames", desc, "")
 			}
 			readback = coqOptFrame(back, enums)
 			tab = parseTable(',', nil, doc)
@@ -1208,4 +1238,16 @@ func minInt(a, b int) int {
 		return a
 	}
 	return b
+}
+
+// framesSame: equal names, types and cells (Equals treats NaN = NaN; enum columns compare by value)
+func framesSame(a, b qframe.QFrame) bool {
+	if fmt.Sprint(a.ColumnNames()) != fmt.Sprint(b.ColumnNames()) || fmt.Sprint(a.ColumnTypes()) != fmt.Sprint(b.ColumnTypes()) {
+		return false
+	}
+	if a.Len() == 0 && b.Len() == 0 {
+		return true
+	}
+	eq, _ := a.Equals(b)
+	return eq
 }
